@@ -133,7 +133,7 @@ func renderSeq(src string, opts ...mjml.RenderOption) (string, string) {
 }
 
 func runC12(res *Result, tier string, seed int64, replay string) {
-	res.Rule = "metamorphic pairs: documents = seeded grammar documents (whole component grammar, heads with attributes / classes / fonts / styles) + every fixture for the debug rewrite; rewrites of the SOURCE: indentation + LF, indentation + CRLF (between structural elements only), attribute order within every tag, single quotes, self-closing empty elements, the head written differently (a declaration of mj-attributes split in two, the declarations spread over two blocks, other head elements before or after them), white space inside tags (before '>' and '/>', around '=', between attributes, in end tags), comments / blank lines / a byte-order mark / an XML declaration / a doctype before the root (all of them, exhaustively, on documents whose content is cut out of the source by position: mj-raw in head and body, mj-text, mj-table, mj-button, mj-style), and random combinations; outputs must be equal up to whitespace between tags (ids α-renamed), errors identical; rewrite of the OPTIONS: WithDebugTags output minus data-mj-debug-* attributes must equal the normal output byte for byte. HTMLTag correspondence: seeded operation lists on the real html.HTMLTag vs the Lean byte-exact model (driver `tag`). Non-trivial = document with ≥3 elements carrying ≥2 attributes; distinct by (document, rewrite)"
+	res.Rule = "metamorphic pairs: documents = seeded grammar documents (whole component grammar, heads with attributes / classes / fonts / styles) + every fixture for the debug rewrite; rewrites of the SOURCE: indentation + LF, indentation + CRLF (between structural elements only), attribute order within every tag, single quotes, self-closing empty elements, the head written differently (a declaration of mj-attributes split in two, the declarations spread over two blocks, other head elements before or after them), white space inside tags (before '>' and '/>', around '=', between attributes, in end tags), comments / blank lines / a byte-order mark / an XML declaration / a doctype before the root (all of them, exhaustively, on documents whose content is cut out of the source by position: mj-raw in head and body, mj-text, mj-table, mj-button, mj-style), and random combinations; the whole source with LF vs CRLF line ends on hand-written multi-line documents (explicit CDATA on its own line in mj-text / mj-button / mj-raw, inline HTML, void tags, end tags, table rows, styles, attributes over several lines); outputs must be equal up to whitespace between tags (ids α-renamed), errors identical; rewrite of the OPTIONS: WithDebugTags output minus data-mj-debug-* attributes must equal the normal output byte for byte. HTMLTag correspondence: seeded operation lists on the real html.HTMLTag vs the Lean byte-exact model (driver `tag`). Non-trivial = document with ≥3 elements carrying ≥2 attributes; distinct by (document, rewrite)"
 	n := 250
 	if tier == "thorough" {
 		n = 8000
@@ -232,6 +232,24 @@ func runC12(res *Result, tier string, seed int64, replay string) {
 				Input: map[string]string{"source": d.src}})
 		}
 	}
+	// line ends: the same source written with LF and with CRLF line ends (XML reads both as LF). Hand-written documents whose
+	// content spans lines in every way: an explicit CDATA section on its own line inside mj-text / mj-button / mj-raw, inline HTML
+	// and void tags over several lines, table rows, styles, attributes on their own lines, end tags over several lines
+	for li, ld := range lineEndDocs() {
+		lf := strings.ReplaceAll(ld, "\r\n", "\n")
+		crlf := strings.ReplaceAll(lf, "\n", "\r\n")
+		a, ae := renderSeq(lf)
+		b, be := renderSeq(crlf)
+		res.Case(fmt.Sprintf("line-ends|%d", li), true)
+		res.Count("rewrite=line-ends")
+		na, nb := canonWS(alphaIDs(strings.ReplaceAll(a, "\r\n", "\n"))), canonWS(alphaIDs(strings.ReplaceAll(b, "\r\n", "\n")))
+		if na != nb || ae != be {
+			at := firstDiff(na, nb)
+			res.Violate(Violation{Sig: "rewrite-changes-output|line-ends", Kind: "input",
+				What:  fmt.Sprintf("CRLF line ends change the output at offset %d: …%s… vs LF …%s… (errors %q vs %q)", at, around(nb, at), around(na, at), be, ae),
+				Input: map[string]string{"source": lf, "variant": crlf, "rewrite": "line-ends"}})
+		}
+	}
 	for _, f := range loadFixtures() {
 		base, berr := renderSeq(f.MJML)
 		dbg, derr := renderSeq(f.MJML, mjml.WithDebugTags(true))
@@ -300,6 +318,26 @@ func runC12(res *Result, tier string, seed int64, replay string) {
 			break
 		}
 	}
+}
+
+// lineEndDocs: multi-line documents (written with LF here) for the LF / CRLF pair
+func lineEndDocs() []string {
+	wrap := func(inner string) string {
+		return "<mjml>\n<mj-body>\n<mj-section>\n<mj-column>\n" + inner + "\n</mj-column>\n</mj-section>\n</mj-body>\n</mjml>\n"
+	}
+	var out []string
+	for _, ws := range []string{"\n", "\n   ", " \n\t", "\n\n", " ", ""} {
+		out = append(out,
+			wrap("<mj-text>"+ws+"<![CDATA[Hello <b>world</b>]]>"+ws+"</mj-text>"),
+			wrap("<mj-button href=\"u\">"+ws+"<![CDATA[Go <i>now</i>]]>"+ws+"</mj-button>"),
+			wrap("<mj-raw>"+ws+"<![CDATA[<p>raw</p>]]>"+ws+"</mj-raw>"),
+			wrap("<mj-text"+ws+"color=\"#111111\""+ws+">line one<br"+ws+"/>line two"+ws+"<img src=\"i.png\""+ws+"alt=\"a\""+ws+"/></mj-text"+ws+">"),
+			wrap("<mj-table>"+ws+"<tr>"+ws+"<td>a</td>"+ws+"<td>b</td>"+ws+"</tr>"+ws+"</mj-table>"),
+			wrap("<mj-accordion>"+ws+"<mj-accordion-element>"+ws+"<mj-accordion-title>T"+ws+"i</mj-accordion-title>"+ws+"<mj-accordion-text>X"+ws+"y</mj-accordion-text>"+ws+"</mj-accordion-element>"+ws+"</mj-accordion>"),
+			wrap("<mj-navbar>"+ws+"<mj-navbar-link href=\"/a\">A"+ws+"a</mj-navbar-link>"+ws+"</mj-navbar>"+ws+"<mj-social>"+ws+"<mj-social-element name=\"facebook\" href=\"h\">F"+ws+"b</mj-social-element>"+ws+"</mj-social>"))
+	}
+	out = append(out, "<mjml>\n<mj-head>\n<mj-title>a\ntitle</mj-title>\n<mj-preview>pre\nview</mj-preview>\n<mj-style>\n.a {\n  color: red;\n}\n</mj-style>\n<mj-style inline=\"inline\">\n.b {\n  color: blue;\n}\n</mj-style>\n<mj-raw>\n<meta name=\"x\"\n content=\"y\"/>\n</mj-raw>\n<mj-attributes>\n<mj-text\n color=\"#222222\"\n/>\n</mj-attributes>\n</mj-head>\n<mj-body>\n<mj-section>\n<mj-column>\n<mj-text css-class=\"b\">x</mj-text>\n</mj-column>\n</mj-section>\n</mj-body>\n</mjml>")
+	return out
 }
 
 func init() { register("C12", runC12) }
